@@ -12,7 +12,7 @@ def run(job):
     pid, patch = job
     t0 = time.time()
     r = subprocess.run([f"{ROOT}/tools/with_src.sh", "HEAD", patch, "--", f"{ROOT}/check", pid, "--tier", "quick",
-                        "--shards", "4"], capture_output=True, text=True, cwd=ROOT,
+                        "--shards", {"C01": "16"}.get(pid, "4")], capture_output=True, text=True, cwd=ROOT,
                        env=dict(os.environ, VERIF_NO_EVIDENCE="1"))
     keys = sorted({l.split()[1].rstrip(":") for l in r.stdout.splitlines() if l.strip().startswith("failure ")})
     return {"property": pid, "mutant": os.path.basename(patch), "exit": r.returncode, "caught": r.returncode == 1 and bool(keys),
